@@ -577,6 +577,9 @@ pub fn gen_case_c02(rng: &mut Rng) -> Value {
     // a probe that the twins accept (as far as the probe vocabulary allows): their own path and host
     if let Some(t) = &twin_probe { if let Some(p) = probes.get_mut(0) { if let Some(x) = t.get("path") { if x.is_string() { p["path"] = x.clone(); } } if let Some(h) = t.get("host") { if h.is_string() { p["host"] = h.clone(); } } } }
     if rng.chance(1, 4) { header_focus(rng, &mut routes, &mut probes); }
+    // histories over rules that differ in ONE trigger kind (several date / time / weekday groups, method buckets, ip ranges
+    // in one bucket): removals must find and return the rule whatever group it sits in
+    else if rng.chance(1, 3) { trigger_focus(rng, &mut routes, &mut probes, false); }
     let cfg = if rng.chance(1, 2) { json!({"ic_host": rng.chance(2, 3), "ic_path": rng.chance(2, 3), "ic_header": false, "always": rng.chance(1, 2)}) } else { gen_cfg(rng) };
     json!({"cfg": cfg, "routes": routes, "ops": ops, "probes": probes, "trace": false})
 }
